@@ -329,6 +329,9 @@ func runDecisionTable(c *Ctx, rule string, report bool) (map[string]rotOutcome, 
 }
 
 func c08(c *Ctx) {
+	// "storage and the return value hold the same two roots" on the module's back ends needs the back
+	// ends to return what was stored last: C19's rules, evaluated here too
+	defer c19(c)
 	r := c.R
 	r.Rule("R-C08.1", "the decision function is executed abstractly on every combination of {record nil, current nil, next nil} and every ordering (<,=,>) of the four stored instants against now (85 states, exhaustive); each leaf (roots to make, root carried over) must be allowed by the property's table; tie states accept either strict refinement and the three safety post-conditions hold everywhere")
 	r.Rule("R-C08.2", "minted template: NotBefore = now + WithNotBeforeClockSkew, NotAfter = now + WithCertificateLifetime + WithNotAfterClockSkew; when minting next both ends are shifted by time.Until(carried-or-new current.NotAfter)/2; stored timestamps are taken from the template after the shift")
